@@ -564,8 +564,22 @@ theorem drop_len (c : Nat) (cs : List Nat) :
   have := head_width c cs
   simp only [List.length_drop]; omega
 
+theorem piece_pos (c : Nat) (tl : List Nat) (r w : Nat) (hd : decodeHead (c :: tl) = (r, w)) :
+    0 < (quotePiece (c :: tl) r w).length := by
+  rcases quotePiece_cases (c :: tl) r w _ rfl with ⟨_, _, hp⟩ | ⟨_, hrest⟩
+  · rw [hp]; simp
+  · rcases hrest with ⟨_, hp⟩ | ⟨_, hp⟩ | ⟨_, _, _, hp⟩ | ⟨_, _, _, hrest⟩
+    · rw [hp]; simp
+    · rw [hp]; simp
+    · rw [hp]
+      have hw := head_width c tl
+      rw [hd] at hw
+      simp only [List.length_take, List.length_cons]; simp only at hw; omega
+    · rcases hrest with ⟨_, hp⟩ | ⟨_, hp⟩ | ⟨_, hp⟩ | ⟨_, hp⟩ | ⟨_, hp⟩ | ⟨_, hp⟩ | ⟨_, hp⟩ | ⟨_, hp⟩ |
+        ⟨_, _, hp⟩ | ⟨_, hp⟩ <;> (rw [hp]; simp)
+
 /-- Unquoting the quoted text gives the value back — every byte string. -/
-theorem unq_body : ∀ (f : Nat) (v : List Nat) (fuel : Nat), v.length < f → v.length < fuel →
+theorem unq_body : ∀ (f : Nat) (v : List Nat) (fuel : Nat), v.length < f → (quoteBody f v).length < fuel →
     (∀ b ∈ v, b < 256) → unquoteBody fuel (quoteBody f v) = some v
   | 0, v, _, hf, _, _ => by omega
   | f+1, [], fuel, _, hfu, _ => by
@@ -577,11 +591,186 @@ theorem unq_body : ∀ (f : Nat) (v : List Nat) (fuel : Nat), v.length < f → v
     | zero => simp at hfu
     | succ fuel =>
       have hlt := drop_len c cs
+      have hpp := piece_pos c cs (decodeHead (c :: cs)).1 (decodeHead (c :: cs)).2 rfl
+      rw [quoteBody, List.length_append] at hfu
       have ih := unq_body f ((c :: cs).drop (decodeHead (c :: cs)).2) fuel
         (by simp only [List.length_cons] at hf hlt ⊢; omega)
-        (by simp only [List.length_cons] at hfu hlt ⊢; omega)
+        (by omega)
         (fun b hbm => hb b (List.mem_of_mem_drop hbm))
       rw [quoteBody, unq_piece c cs (decodeHead (c :: cs)).1 (decodeHead (c :: cs)).2 rfl (hb c (by simp)), ih]
       simp
+
+/-! ### bridge to the lexer state `L` -/
+
+/-- the unread bytes -/
+def rem (l : L) : List Nat := l.inp.toList.drop l.pos
+
+theorem decodeRune_rem (l : L) : decodeRune l.inp l.pos = decodeHead (rem l) := by
+  have key : ∀ i, (if h : i < l.inp.size then l.inp[i] else 0) = l.inp[i]?.getD 0 := by
+    intro i; split <;> simp [*]
+  simp [decodeRune, decodeHead, rem, Array.getD, List.getD, List.getElem?_drop, key]
+
+theorem rem_nil_iff (l : L) : rem l = [] ↔ l.inp.size ≤ l.pos := by
+  simp [rem, List.drop_eq_nil_iff]
+
+/-- one `next` on a state with unread bytes -/
+theorem next_rem (l : L) (c : Nat) (cs : List Nat) (h : rem l = c :: cs) :
+    (l.next).2 = some (decodeHead (c :: cs)).1 ∧ rem (l.next).1 = (c :: cs).drop (decodeHead (c :: cs)).2 ∧
+      (l.next).1.inp = l.inp ∧ (l.next).1.start = l.start ∧ (l.next).1.toks = l.toks ∧
+      (l.next).1.skippedNl = l.skippedNl ∧ (l.next).1.pos = l.pos + (decodeHead (c :: cs)).2 := by
+  have hlt : ¬ l.pos ≥ l.inp.size := by
+    intro hge
+    have := (rem_nil_iff l).2 hge
+    rw [h] at this; simp at this
+  unfold L.next
+  rw [if_neg hlt, decodeRune_rem, h]
+  refine ⟨rfl, ?_, rfl, rfl, rfl, rfl, rfl⟩
+  simp only [rem] at h ⊢
+  rw [← h, List.drop_drop]
+
+/-- `lexValue`'s loop on `L` follows `scan` on the unread bytes. -/
+theorem loop_bridge : ∀ (fuel : Nat) (lp : L) (esc : Bool) (ln lnl : Nat) (x : List Nat),
+    scan fuel (rem lp) esc = some x →
+    ∃ l' ln' lnl', lexValueLoop true (some 34) fuel (lp.next).1 (lp.next).2 esc ln lnl = some (l', ln', lnl') ∧
+      l'.inp = lp.inp ∧ l'.start = lp.start ∧ l'.toks = lp.toks ∧ l'.skippedNl = lp.skippedNl ∧ rem l' = x ∧
+      l'.pos ≤ l'.inp.size
+  | 0, _, _, _, _, _, h => by simp [scan] at h
+  | fuel+1, lp, esc, ln, lnl, x, h => by
+    cases hr : rem lp with
+    | nil => rw [hr] at h; simp [scan] at h
+    | cons c cs =>
+      rw [hr, scan] at h
+      obtain ⟨h2, hrem, hinp, hst, htk, hsk, hpos⟩ := next_rem lp c cs hr
+      have hple : (lp.next).1.pos ≤ (lp.next).1.inp.size := by
+        have hw := (head_width c cs).2
+        have hl : (rem lp).length = lp.inp.size - lp.pos := by simp [rem]
+        rw [hr] at hl
+        simp only [List.length_cons] at hw hl
+        rw [hpos, hinp]; omega
+      rw [lexValueLoop, h2]
+      by_cases hstop : (decodeHead (c :: cs)).1 = 34 ∧ esc = false
+      · rw [if_pos hstop] at h
+        have hc : ((!true && some (decodeHead (c :: cs)).1 != some 34) ||
+            (true && (some (decodeHead (c :: cs)).1 != some 34 || esc))) = false := by
+          simp [hstop.1, hstop.2]
+        simp only [hc, Bool.false_eq_true, ↓reduceIte]
+        refine ⟨_, _, _, rfl, hinp, hst, htk, hsk, ?_, hple⟩
+        rw [hrem]; exact Option.some.inj h
+      · rw [if_neg hstop] at h
+        have hc : ((!true && some (decodeHead (c :: cs)).1 != some 34) ||
+            (true && (some (decodeHead (c :: cs)).1 != some 34 || esc))) = true := by
+          by_cases e : (decodeHead (c :: cs)).1 = 34
+          · have : esc = true := by
+              cases esc with
+              | true => rfl
+              | false => exact absurd ⟨e, rfl⟩ hstop
+            simp [this]
+          · simp [e]
+        simp only [hc, ↓reduceIte]
+        rw [← hrem] at h
+        obtain ⟨l', ln', lnl', hl, a1, a2, a3, a4, a5, a6⟩ := loop_bridge fuel (lp.next).1
+          (!esc && (decodeHead (c :: cs)).1 == 92) _ _ x h
+        have hnn : ¬ (((lp.next).1.next).2 = none) := by
+          cases hr2 : rem (lp.next).1 with
+          | nil =>
+            rw [hr2] at h
+            cases fuel <;> simp [scan] at h
+          | cons c2 cs2 =>
+            rw [(next_rem (lp.next).1 c2 cs2 hr2).1]; simp
+        rw [if_neg hnn]
+        have hesc : (!esc && decide (some (decodeHead (c :: cs)).1 = some 92)) =
+            (!esc && (decodeHead (c :: cs)).1 == 92) := by
+          congr 1
+          by_cases e : (decodeHead (c :: cs)).1 = 92 <;> simp [e]
+        rw [hesc]
+        exact ⟨l', ln', lnl', hl, a1.trans hinp, a2.trans hst, a3.trans htk, a4.trans hsk, a5, a6⟩
+
+theorem slice_mid : ∀ (pre qb tail : List Nat),
+    ((pre ++ 34 :: (qb ++ tail)).take (pre.length + 1 + qb.length)).drop (pre.length + 1) = qb
+  | [], qb, tail => by
+    have : 0 + 1 + qb.length = qb.length + 1 := by omega
+    simp only [List.nil_append, List.length_nil, this, List.take_succ_cons, List.drop_succ_cons, List.drop_zero]
+    exact List.take_left' rfl
+  | a :: pre, qb, tail => by
+    have : (a :: pre).length + 1 + qb.length = (pre.length + 1 + qb.length) + 1 := by simp; omega
+    rw [this]
+    simp only [List.cons_append, List.take_succ_cons, List.length_cons, List.drop_succ_cons]
+    exact slice_mid pre qb tail
+
+theorem next_inp (l : L) : (l.next).1.inp = l.inp := by
+  unfold L.next; split <;> rfl
+
+/-- **lex (quote v) = v on the real models.** Wherever the text `Ecal.Print.quote v` stands in the input
+    (after `pre`, before `rest`), `Ecal.Lex.lexValue` — started at its first byte — emits exactly one
+    token: a string token with value `v`, `allowEscapes = true`, `identifier = false`, positioned at the
+    literal, and stops directly behind the literal. For EVERY byte string `v` (invalid UTF-8, U+FFFD,
+    control characters, quotes, backslashes …). -/
+theorem lexValue_quote (l0 : L) (pre v rest : List Nat) (hv : ∀ b ∈ v, b < 256)
+    (hinp : l0.inp = (pre ++ (quote v ++ rest)).toArray) (hpos : l0.pos = pre.length) :
+    ∃ t : Tok, (lexValue l0).2 = Next.token ∧ (lexValue l0).1.toks = l0.toks.push t ∧
+      t.id = tSTRING ∧ t.val = v ∧ t.allowEscapes = true ∧ t.identifier = false ∧ t.pos = pre.length ∧
+      (lexValue l0).1.pos = pre.length + (quote v).length ∧ (lexValue l0).1.inp = l0.inp := by
+  -- the quoted text
+  generalize hqb : quoteBody (v.length + 1) v = qb
+  have hq : quote v = 34 :: (qb ++ [34]) := by simp [quote, hqb]
+  have hsize : l0.inp.size = pre.length + (qb.length + 2 + rest.length) := by
+    rw [hinp, hq]; simp; omega
+  -- the state after `start := pos`
+  let la : L := { l0 with start := l0.pos }
+  have hla : rem la = 34 :: (qb ++ 34 :: rest) := by
+    show l0.inp.toList.drop l0.pos = _
+    rw [hinp, hpos, hq]; simp
+  obtain ⟨n1, r1, i1, s1, t1, k1, p1⟩ := next_rem la 34 (qb ++ 34 :: rest) hla
+  rw [decodeHead_ascii 34 _ (by omega)] at n1 r1 p1
+  simp only [List.drop_succ_cons, List.drop_zero] at r1
+  -- the loop
+  have hscan : scan (la.next.1.next.1.inp.size + 2) (rem la.next.1) false = some rest := by
+    rw [r1]
+    have := scan_body (v.length + 1) v rest
+    rw [hqb] at this
+    refine scan_mono _ _ ?_ _ _ _ this
+    rw [next_inp, i1]; show qb.length + 1 ≤ l0.inp.size + 2
+    omega
+  obtain ⟨l', ln', lnl', hloop, a1, a2, a3, a4, a5, a6⟩ :=
+    loop_bridge (la.next.1.next.1.inp.size + 2) la.next.1 false (la.next.1.next.1).line (la.next.1.next.1).lastnl rest hscan
+  have hinp' : l'.inp = l0.inp := a1.trans i1
+  have hstart' : l'.start = pre.length := by rw [a2, s1]; exact hpos
+  have hpos' : l'.pos = pre.length + qb.length + 2 := by
+    have : (rem l').length = rest.length := by rw [a5]
+    simp only [rem, List.length_drop, Array.length_toList] at this
+    rw [hinp'] at this a6
+    omega
+  have hval : l'.slice (l'.start + 1) (l'.pos - 1) = qb := by
+    simp only [L.slice, Array.toList_extract, hinp', hinp, hstart', hpos', hq]
+    have := slice_mid pre qb (34 :: rest)
+    simp only [List.cons_append, List.append_assoc, List.nil_append] at this ⊢
+    have e : pre.length + qb.length + 2 - 1 = pre.length + 1 + qb.length := by omega
+    rw [e]
+    simpa [List.extract] using this
+  have hunq : unquoteBody (qb.length + 2) qb = some v := by
+    rw [← hqb]; exact unq_body (v.length + 1) v _ (by omega) (by omega) hv
+  -- put it together
+  have hopen : lexValueOpen l0 = (la.next.1, true, some 34) := by
+    unfold lexValueOpen
+    show (if (la.next).2 = some 114 && _ then _ else _) = _
+    rw [n1]; simp
+    rfl
+  refine ⟨Tok.mk tSTRING l'.start v false true l'.skippedNl l'.stamp.1 l'.stamp.2, ?_⟩
+  have hres : lexValue l0 =
+      ({ (l'.emit tSTRING v false true) with line := ln', lastnl := lnl' }, Next.token) := by
+    unfold lexValue
+    rw [hopen]
+    dsimp only
+    rw [hloop]
+    simp only [lexValueClose, if_true, hval]
+    have h39 : ¬ ((some 34 : Option Nat) = some 39) := by simp
+    rw [if_neg h39, hunq]
+  rw [hres]
+  refine ⟨rfl, ?_, rfl, rfl, rfl, rfl, hstart', ?_, ?_⟩
+  · simp [L.emit, a3, t1]
+    rfl
+  · show l'.pos = _
+    rw [hpos', hq]; simp; omega
+  · exact hinp'
 
 end Ecal.C08.QR
